@@ -985,7 +985,9 @@ impl<C: CellType> OptRebuild<'_, C> {
             }
             // A written variable that is constant is not clobbered below, because the
             // block only ever stores the value the variable already has. That value
-            // includes our pending operations, so they have to be performed first.
+            // includes our pending operations, so they have to be performed first. The
+            // same holds for every enclosing block (the constant value may be known from
+            // one of them), so the variable also counts as read by this block.
             let mut written_constant = sub_state
                 .written
                 .keys()
@@ -995,6 +997,7 @@ impl<C: CellType> OptRebuild<'_, C> {
             written_constant.sort();
             for var in written_constant {
                 self.emit(var);
+                self.read(var);
             }
             for (&var, _) in &sub_state.written {
                 if !constant.contains(&var) {
